@@ -50,7 +50,7 @@ structure XState (ν : Type) where
 
 /-- one iteration of `for __attr in attrs`: the attribute's path string selects the arm -/
 def stepAttr (r : SOuter ν) (st : XState ν) (a : Attr) : Except String (XState ν) :=
-  let key := a.path.toks
+  let key := a.path.toStr     -- `util::path_to_string(__attr.path())`, like the declared names
   if r.willParseAny && r.attrNames.contains key then
     match attrItems a with
     | .items [] => .ok st                      -- `if __items.is_empty() { continue; }`
